@@ -50,22 +50,69 @@ type scope struct {
 // Gen accumulates one SMT-LIB script: declarations, shared definitions and
 // global assumptions. Obligations are kept separately and checked one by one.
 type Gen struct {
-	decls    strings.Builder // declare-const / declare-fun / define-fun in order
+	items    []genItem // declare-const / declare-fun / define-fun / raw commands in order
+	byName   map[string]int
 	n        int
 	declared map[string]bool
 	assumes  []string
 	scopes   []*scope // quantifier scopes (innermost last)
 	Size     int
+	consed   map[string]string
+	assumed  map[string]bool
+	boolDef  map[string]string
 }
 
-func NewGen() *Gen { return &Gen{declared: map[string]bool{}} }
+// Atom strips negations from a Boolean term name: it returns the underlying term and
+// whether the original is its negation.
+func (g *Gen) Atom(t string) (string, bool) {
+	neg := false
+	for {
+		if d, ok := g.boolDef[t]; ok && strings.HasPrefix(d, "(not ") && balanced(d[5:len(d)-1]) {
+			t = d[5 : len(d)-1]
+			neg = !neg
+			continue
+		}
+		if strings.HasPrefix(t, "(not ") && strings.HasSuffix(t, ")") && balanced(t[5:len(t)-1]) {
+			t = t[5 : len(t)-1]
+			neg = !neg
+			continue
+		}
+		return t, neg
+	}
+}
+
+// genItem is one top-level command of the preamble.
+type genItem struct {
+	kind string // define declare raw
+	name string
+	text string
+	deps []int // items this one mentions (filled lazily by the slicer)
+	done bool
+}
+
+func NewGen() *Gen {
+	return &Gen{declared: map[string]bool{}, byName: map[string]int{}, consed: map[string]string{}, assumed: map[string]bool{}, boolDef: map[string]string{}}
+}
+
+func (g *Gen) add(kind, name, text string) {
+	if name != "" {
+		g.byName[name] = len(g.items)
+	}
+	g.items = append(g.items, genItem{kind: kind, name: name, text: text})
+}
 
 // Fresh binds a new name to def. At top level it is a define-fun; inside a
 // quantifier scope it is a let binding local to the quantifier body.
 func (g *Gen) Fresh(sort, def string) string {
-	// do not rename atoms
-	if len(def) > 0 && def[0] != '(' {
+	// do not rename atoms and literals
+	if len(def) > 0 && (def[0] != '(' || isLiteral(def)) {
 		return def
+	}
+	if len(g.scopes) == 0 {
+		// hash-consing: one name per distinct term
+		if n, ok := g.consed[def]; ok {
+			return n
+		}
 	}
 	g.n++
 	name := fmt.Sprintf("x%d", g.n)
@@ -74,7 +121,11 @@ func (g *Gen) Fresh(sort, def string) string {
 		s.lets = append(s.lets, letBinding{name, sort, def})
 		return name
 	}
-	fmt.Fprintf(&g.decls, "(define-fun %s () %s %s)\n", name, sort, def)
+	g.consed[def] = name
+	if sort == SortBool {
+		g.boolDef[name] = def
+	}
+	g.add("define", name, fmt.Sprintf("(define-fun %s () %s %s)\n", name, sort, def))
 	g.Size += len(def) + 30
 	return name
 }
@@ -83,7 +134,7 @@ func (g *Gen) Fresh(sort, def string) string {
 func (g *Gen) Const(hint, sort string) string {
 	g.n++
 	name := qname(fmt.Sprintf("%s!%d", hint, g.n))
-	fmt.Fprintf(&g.decls, "(declare-const %s %s)\n", name, sort)
+	g.add("declare", name, fmt.Sprintf("(declare-const %s %s)\n", name, sort))
 	g.Size += len(name) + 30
 	return name
 }
@@ -93,7 +144,7 @@ func (g *Gen) Named(name, sort string) string {
 	q := qname(name)
 	if !g.declared[q] {
 		g.declared[q] = true
-		fmt.Fprintf(&g.decls, "(declare-const %s %s)\n", q, sort)
+		g.add("declare", q, fmt.Sprintf("(declare-const %s %s)\n", q, sort))
 	}
 	return q
 }
@@ -103,17 +154,17 @@ func (g *Gen) Fun(name string, args []string, res string) string {
 	q := qname(name)
 	if !g.declared[q] {
 		g.declared[q] = true
-		fmt.Fprintf(&g.decls, "(declare-fun %s (%s) %s)\n", q, strings.Join(args, " "), res)
+		g.add("declare", q, fmt.Sprintf("(declare-fun %s (%s) %s)\n", q, strings.Join(args, " "), res))
 	}
 	return q
 }
 
-// Raw emits a raw top-level command once (keyed by key).
+// Raw emits a raw top-level command once (keyed by key). Raw commands (sort
+// declarations) are part of every sliced script.
 func (g *Gen) Raw(key, text string) {
 	if !g.declared["raw:"+key] {
 		g.declared["raw:"+key] = true
-		g.decls.WriteString(text)
-		g.decls.WriteString("\n")
+		g.add("raw", "", text+"\n")
 	}
 }
 
@@ -123,9 +174,10 @@ func (g *Gen) Assume(term string) {
 	if len(g.scopes) > 0 {
 		return
 	}
-	if term == "true" {
+	if term == "true" || g.assumed[term] {
 		return
 	}
+	g.assumed[term] = true
 	g.assumes = append(g.assumes, term)
 	g.Size += len(term) + 10
 }
@@ -153,11 +205,198 @@ func (g *Gen) PopScope(body string) string {
 func (g *Gen) Script() string {
 	var b strings.Builder
 	b.WriteString("(set-logic ALL)\n")
-	b.WriteString(g.decls.String())
+	for i := range g.items {
+		b.WriteString(g.items[i].text)
+	}
 	for _, a := range g.assumes {
 		b.WriteString("(assert ")
 		b.WriteString(a)
 		b.WriteString(")\n")
+	}
+	return b.String()
+}
+
+// symbolsIn calls f for every item index named in text.
+func (g *Gen) symbolsIn(text string, f func(int)) {
+	n := len(text)
+	for i := 0; i < n; {
+		c := text[i]
+		switch {
+		case c == '|':
+			j := i + 1
+			for j < n && text[j] != '|' {
+				j++
+			}
+			if j < n {
+				if k, ok := g.byName[text[i:j+1]]; ok {
+					f(k)
+				}
+			}
+			i = j + 1
+		case c == 'x' && (i == 0 || text[i-1] == ' ' || text[i-1] == '('):
+			j := i + 1
+			for j < n && text[j] >= '0' && text[j] <= '9' {
+				j++
+			}
+			if j > i+1 && (j == n || text[j] == ' ' || text[j] == ')') {
+				if k, ok := g.byName[text[i:j]]; ok {
+					f(k)
+				}
+			}
+			i = j
+		default:
+			i++
+		}
+	}
+}
+
+// Slicer computes, per obligation, the part of the preamble the obligation can depend
+// on: the definitions and declarations its condition mentions (transitively) and every
+// assumption connected to those through a shared uninterpreted symbol (cone of
+// influence, to a fixed point). Leaving out an assumption can only make a proof
+// obligation harder to discharge, never easier, so slicing is sound for proofs.
+type Slicer struct {
+	g         *Gen
+	asDeps    [][]int       // per assumption: items it mentions directly
+	asDecl    []map[int]bool // per assumption: declared symbols in its transitive closure
+	declIndex map[int][]int  // declared item -> assumptions whose closure contains it
+}
+
+func (g *Gen) deps(i int) []int {
+	it := &g.items[i]
+	if !it.done {
+		it.done = true
+		if it.kind == "define" || it.kind == "declare" {
+			// the text after the name
+			seen := map[int]bool{}
+			g.symbolsIn(it.text, func(k int) {
+				if k != i && !seen[k] {
+					seen[k] = true
+					it.deps = append(it.deps, k)
+				}
+			})
+		}
+	}
+	return it.deps
+}
+
+func (g *Gen) closure(start []int, in map[int]bool) {
+	stack := append([]int{}, start...)
+	for len(stack) > 0 {
+		k := stack[len(stack)-1]
+		stack = stack[:len(stack)-1]
+		if in[k] {
+			continue
+		}
+		in[k] = true
+		for _, d := range g.deps(k) {
+			if !in[d] {
+				stack = append(stack, d)
+			}
+		}
+	}
+}
+
+func (g *Gen) NewSlicer() *Slicer {
+	s := &Slicer{g: g, declIndex: map[int][]int{}}
+	memo := map[int]map[int]bool{} // define item -> declared symbols in its closure
+	var declsOf func(k int) map[int]bool
+	declsOf = func(k int) map[int]bool {
+		if m, ok := memo[k]; ok {
+			return m
+		}
+		m := map[int]bool{}
+		memo[k] = m
+		if g.items[k].kind == "declare" {
+			m[k] = true
+		}
+		for _, d := range g.deps(k) {
+			for x := range declsOf(d) {
+				m[x] = true
+			}
+		}
+		return m
+	}
+	for ai, a := range g.assumes {
+		var direct []int
+		seen := map[int]bool{}
+		g.symbolsIn(a, func(k int) {
+			if !seen[k] {
+				seen[k] = true
+				direct = append(direct, k)
+			}
+		})
+		s.asDeps = append(s.asDeps, direct)
+		dm := map[int]bool{}
+		for _, k := range direct {
+			for x := range declsOf(k) {
+				dm[x] = true
+			}
+		}
+		s.asDecl = append(s.asDecl, dm)
+		for x := range dm {
+			s.declIndex[x] = append(s.declIndex[x], ai)
+		}
+	}
+	return s
+}
+
+// Script returns the sliced preamble for one obligation condition.
+func (s *Slicer) Script(cond string) string {
+	g := s.g
+	in := map[int]bool{}
+	var start []int
+	g.symbolsIn(cond, func(k int) { start = append(start, k) })
+	g.closure(start, in)
+	asIn := make([]bool, len(g.assumes))
+	// fixed point over assumptions connected through declared symbols
+	var work []int
+	for k := range in {
+		if g.items[k].kind == "declare" {
+			work = append(work, k)
+		}
+	}
+	visited := map[int]bool{}
+	for len(work) > 0 {
+		d := work[len(work)-1]
+		work = work[:len(work)-1]
+		if visited[d] {
+			continue
+		}
+		visited[d] = true
+		for _, ai := range s.declIndex[d] {
+			if asIn[ai] {
+				continue
+			}
+			asIn[ai] = true
+			g.closure(s.asDeps[ai], in)
+			for x := range s.asDecl[ai] {
+				if !visited[x] {
+					work = append(work, x)
+				}
+			}
+		}
+	}
+	// assumptions without any declared symbol (closed facts) are always kept
+	for ai := range g.assumes {
+		if len(s.asDecl[ai]) == 0 && !asIn[ai] {
+			asIn[ai] = true
+			g.closure(s.asDeps[ai], in)
+		}
+	}
+	var b strings.Builder
+	b.WriteString("(set-logic ALL)\n")
+	for i := range g.items {
+		if in[i] || g.items[i].kind == "raw" {
+			b.WriteString(g.items[i].text)
+		}
+	}
+	for ai, a := range g.assumes {
+		if asIn[ai] {
+			b.WriteString("(assert ")
+			b.WriteString(a)
+			b.WriteString(")\n")
+		}
 	}
 	return b.String()
 }
